@@ -590,6 +590,13 @@ func (c *handlerCtx) bindReply(header Header) interface{} {
 
 	// unlock: handleReply
 	c.callCmd.mu.Lock()
+	if c.callCmd.hasReply() {
+		// a reply for this call has already been handled: ignore the duplicate.
+		c.callCmd.mu.Unlock()
+		c.callCmd = nil
+		Warnf("repeated reply: %v", c.input)
+		return nil
+	}
 	c.input.SetServiceMethod(c.callCmd.output.ServiceMethod())
 	c.swap = c.callCmd.swap
 	c.callCmd.inputBodyCodec = c.GetBodyCodec()
